@@ -31,6 +31,7 @@ type Up4Params struct {
 	Snap      bool   `json:"snap"`
 	Race      bool   `json:"race"`
 	Wide      bool   `json:"wide"` // boundary values (C16)
+	Markers   int    `json:"markers"` // C14: 1 = end markers enabled and asked for, 2 = asked for but disabled in the configuration
 }
 
 func up4Cfg(rng *rand.Rand, n4 string) agent.Cfg {
@@ -99,6 +100,10 @@ func e2eUp4Worker(args []string) error {
 			cfg := up4Cfg(rng, p.N4Addr)
 			cfg.Race = p.Race
 
+			if p.Markers != 0 {
+				cfg.EndMarker = p.Markers == 1
+			}
+
 			var err error
 
 			w, err = e2e.NewWorld(filepath.Join(p.Dir, fmt.Sprintf("w%d", run)), p.AgentBin, p.Trace, cfg, run)
@@ -120,6 +125,7 @@ func e2eUp4Worker(args []string) error {
 		g := e2e.NewUp4Gen(w, rng.Int63(), 1+rng.Intn(3), 1+rng.Intn(5), p.Wide)
 		g.AddFlows = p.AddFlows
 		g.UEAlloc = w.Cfg.UEIPAlloc
+		g.EndMarkers = p.Markers != 0
 
 		for i := 0; i < p.Steps; i++ {
 			if !g.Step() {
